@@ -31,9 +31,52 @@ pub const SPECIAL_DOUBLES: &[f64] = &[
     0.30000000000000004,
 ];
 
+/// Byte strings by which software recognises a format (compression and archive headers,
+/// pickle protocol markers, byte-order marks, JSON openers). A double whose stored bytes
+/// begin with one of them is an ordinary finite double.
+pub const MAGIC_PREFIXES: &[&[u8]] = &[
+    &[0x78, 0x9c], &[0x78, 0x01], &[0x78, 0xda], &[0x78, 0x5e], &[0x1f, 0x8b], &[0x1f, 0x8b, 0x08],
+    &[0x28, 0xb5, 0x2f, 0xfd], &[0x04, 0x22, 0x4d, 0x18], &[0x42, 0x5a, 0x68], &[0xfd, 0x37, 0x7a, 0x58, 0x5a, 0x00],
+    &[0x80, 0x02], &[0x80, 0x03], &[0x80, 0x04], &[0x80, 0x05], &[0xef, 0xbb, 0xbf], &[0xff, 0xfe], &[0xfe, 0xff],
+    &[0x7b], &[0x5b], &[0x22], &[0x7b, 0x22], &[0x50, 0x4b, 0x03, 0x04], &[0x89, 0x50, 0x4e, 0x47], &[0x00, 0x00, 0x00, 0x00],
+    &[0xff, 0xff, 0xff, 0xff], &[0x0a], &[0x0d, 0x0a], &[0x4e, 0x61, 0x4e], &[0x6e, 0x75, 0x6c, 0x6c],
+];
+
+/// A finite double whose little-endian (as stored by bincode) or big-endian bytes begin with
+/// a format's magic prefix; the remaining bits are random.
+pub fn magic_double(rng: &mut Rng) -> f64 {
+    loop {
+        let m = *rng.pick(MAGIC_PREFIXES);
+        let mut b = rng.next_u64().to_le_bytes();
+        // keep the exponent ordinary when the prefix does not cover it
+        let e = (0x3ff0_u64 + rng.below(64) - 32) << 48;
+        b[6] = (e >> 48) as u8;
+        b[7] = (e >> 56) as u8 | if rng.chance(0.3) { 0x80 } else { 0 };
+        let v = if rng.chance(0.75) {
+            for (i, x) in m.iter().enumerate() {
+                b[i] = *x;
+            }
+            f64::from_le_bytes(b)
+        } else {
+            let mut be = b;
+            be.reverse();
+            for (i, x) in m.iter().enumerate() {
+                be[i] = *x;
+            }
+            f64::from_be_bytes(be)
+        };
+        if v.is_finite() {
+            return v;
+        }
+    }
+}
+
 pub fn raw_double(rng: &mut Rng) -> f64 {
     if rng.chance(0.06) {
         return *rng.pick(SPECIAL_DOUBLES);
+    }
+    if rng.chance(0.04) {
+        return magic_double(rng);
     }
     loop {
         let v = match rng.below(20) {
@@ -385,8 +428,20 @@ pub fn gen_spline(rng: &mut Rng) -> SplineSpec {
         rng.usize_in(0, 4)
     };
     let a = awkward(rng, 0.1, 50.0, true);
-    let mut t = vec![a; k];
+    // mostly clamped (k coincident end knots); sometimes fewer coincident end knots, down
+    // to a plain increasing sequence (a uniform / periodic-style knot vector)
+    let (lm, rm) = if rng.chance(0.1) {
+        (rng.usize_in(1, k), rng.usize_in(1, k))
+    } else {
+        (k, k)
+    };
+    let mut t = vec![a; lm];
     let mut x = a;
+    // an open end needs further distinct knots so that the sequence keeps its k + n shape
+    for _ in lm..k {
+        x += if rng.chance(0.5) { 1.0 } else { awkward(rng, 0.05, 5.0, false) };
+        t.push(x);
+    }
     for _ in 0..interior {
         x += awkward(rng, 0.05, 5.0, false);
         t.push(x);
@@ -394,8 +449,12 @@ pub fn gen_spline(rng: &mut Rng) -> SplineSpec {
             t.push(x); // a double interior knot
         }
     }
+    for _ in rm..k {
+        x += if rng.chance(0.5) { 1.0 } else { awkward(rng, 0.05, 5.0, false) };
+        t.push(x);
+    }
     x += awkward(rng, 0.05, 5.0, false);
-    for _ in 0..k {
+    for _ in 0..rm {
         t.push(x);
     }
     SplineSpec {
